@@ -1312,8 +1312,20 @@ func (e *specEnv) call(n *ECall) sval {
 	case *EIdent:
 		name = f.Name
 	case *ESelect:
-		if id, ok := f.X.(*EIdent); ok {
-			name = id.Name + "." + f.Name
+		// dotted name: pkg.Func, pkg.Type.Method
+		var parts []string
+		var cur Expr = f
+		for {
+			if sel, ok := cur.(*ESelect); ok {
+				parts = append([]string{sel.Name}, parts...)
+				cur = sel.X
+				continue
+			}
+			if id, ok := cur.(*EIdent); ok {
+				parts = append([]string{id.Name}, parts...)
+				name = strings.Join(parts, ".")
+			}
+			break
 		}
 	}
 	if name == "" {
@@ -1467,6 +1479,15 @@ func (e *specEnv) call(n *ECall) sval {
 		}
 		w := 66
 		return sval{t: fmt.Sprintf("(bvshl (_ bv1 %d) %s)", w, e.ext(sval{t: s.t, w: s.w}, maxi(w, s.w))), math: true, w: w}
+	case "runes": // []rune(s): the sequence of characters of a string (same uninterpreted conversion the code uses)
+		v := arg(0)
+		if v.typ == nil || !isString(v.typ) {
+			e.fail("runes needs a string")
+		}
+		rt := types.NewSlice(types.Universe.Lookup("rune").Type())
+		fn := "|conv_" + sanitize(types.TypeString(v.typ, nil)) + "_to_" + sanitize(types.TypeString(rt, nil)) + "|"
+		vc.declareFun(fn, []string{"Str"}, "Slice")
+		return sval{t: "(" + fn + " " + v.t + ")", typ: rt}
 	case "wrap64": // the value a Go int64 computation of x yields (two's-complement wrap-around)
 		x := e.toMath(arg(0))
 		if vc.mode == modeInt {
@@ -1594,10 +1615,15 @@ func (e *specEnv) call(n *ECall) sval {
 	if d, ok := vc.P.SpecFuns[name]; ok {
 		return e.expandSpecFun(d, n.Args)
 	}
-	// uninterpreted pure method/function of the program used as a spec function: f(args)
+	// a program or library function declared `pure` + `deterministic` used as a spec function: f(args)
 	if fn := vc.P.ResolveFunc(e.pkg().Name(), name); fn != nil {
-		if d := vc.P.contractFor(fn); d != nil && d.Has("pure") {
-			return e.pureCall(fn, n.Args)
+		if d := vc.P.contractFor(fn); d != nil && d.Has("pure") && d.Has("deterministic") {
+			return e.pureCall(fn, d, n.Args)
+		}
+	}
+	if d, ok := vc.P.Externs[name]; ok && d.Has("pure") && d.Has("deterministic") {
+		if fn := vc.P.findExtern(name); fn != nil {
+			return e.pureCall(fn, d, n.Args)
 		}
 	}
 	e.fail("unknown spec function %s", name)
@@ -1682,9 +1708,9 @@ func (e *specEnv) expandSpecFun(d *Decl, args []Expr) sval {
 }
 
 // pureCall: a program function declared pure is an uninterpreted function of its arguments
-func (e *specEnv) pureCall(fn *ssa.Function, args []Expr) sval {
+func (e *specEnv) pureCall(fn *ssa.Function, d *Decl, args []Expr) sval {
 	vc := e.vc
-	name := "|pure_" + fnKey(fn) + "|"
+	name := pureFnName(d.Name, 0)
 	var sorts, terms []string
 	sig := fn.Signature
 	ptypes := []types.Type{}
